@@ -312,6 +312,55 @@ def rule_g4(ctx):
     ctx.check(guard, "G4-nth-domain", c, "node_1 must lie within node_2", site(f), "containment guard missing", "guarded by inside")
 
 
+def rule_g5(ctx):
+    """Path frames: paths enumerated from `X.get_subtree(P).paths()/leaves()/open_leaves()` are RELATIVE to P;
+    relating them to the (absolute) path arguments requires prefixing P."""
+    m, entries = registry(ctx)
+    n_iters = 0
+    for name, (_, f, _, _) in sorted(entries.items()):
+        params = [a.arg for a in f.args.args]
+        path_params = set(params[-2:])
+        for node in ast.walk(f):
+            gens = []
+            if isinstance(node, ast.For):
+                gens = [(node.target, node.iter, node)]
+            elif isinstance(node, (ast.GeneratorExp, ast.ListComp, ast.SetComp)):
+                gens = [(g.target, g.iter, node) for g in node.generators]
+            for target, it, scope in gens:
+                t = src(it)
+                mt = _re.fullmatch(r"(.+)\.get_subtree\((.+)\)\.(paths|leaves|open_leaves)\(\)", t)
+                if not mt:
+                    continue
+                frame = mt.group(2)
+                if frame in ("()", "tuple()"):
+                    continue
+                var = target.elts[0].id if isinstance(target, ast.Tuple) and isinstance(target.elts[0], ast.Name) else (target.id if isinstance(target, ast.Name) else None)
+                if var is None or var == "_":
+                    continue
+                n_iters += 1
+                # every use of `var` in the scope must be rebased: `frame + var`
+                bad = []
+                for u in ast.walk(scope):
+                    if isinstance(u, ast.Name) and u.id == var and isinstance(u.ctx, ast.Load):
+                        p = getattr(u, "_parent", None)
+                        rebased = isinstance(p, ast.BinOp) and isinstance(p.op, ast.Add) and src(p.left) == frame and p.right is u
+                        if rebased:
+                            continue
+                        # is it related to an absolute path argument (comparison or predicate call)?
+                        q = p
+                        while q is not None and not isinstance(q, (ast.Compare, ast.Call, ast.stmt)):
+                            q = getattr(q, "_parent", None)
+                        if isinstance(q, (ast.Compare, ast.Call)) and any(isinstance(x, ast.Name) and x.id in path_params for x in ast.walk(q)):
+                            bad.append(src(q)[:50])
+                ctx.check(not bad, "G5-path-frames", f"{PRED}:{f.name}", f"paths of get_subtree({frame}) rebased before use", site(it),
+                          f"paths enumerated below `{frame}` are relative to that subtree but are related to the absolute path arguments without prefixing `{frame}` ({bad[:3]}): "
+                          "for a non-empty frame the comparison is between different coordinate systems (e.g. consecutive(x, z) is True for <r>(<a>(x y z)))",
+                          "relative paths rebased with the frame")
+    ctx.inventory["subtree_path_iterations"] = n_iters
+    if n_iters < 2:
+        raise Unrecognised("C04.G5", PRED, f"only {n_iters} subtree path iterations found (expected nth and consecutive)")
+
+
 def rule_g3(ctx):
     m, entries = registry(ctx)
     for name, (_, fn, _, cname) in sorted(entries.items()):
@@ -332,5 +381,6 @@ def run(ctx) -> str:
     ctx.guarded("G2", lambda: rule_g2(ctx))
     ctx.guarded("G3", lambda: rule_g3(ctx))
     ctx.guarded("G4", lambda: rule_g4(ctx))
+    ctx.guarded("G5", lambda: rule_g5(ctx))
     ctx.assume("the predicate table of sphinx/islaspec.rst is the documented meaning")
     return EXPLANATION
